@@ -15,7 +15,7 @@ ASSUMPTIONS = [
 ]
 STUBS = ["numpy.linalg.inv (contract A.B=I)", "numpy.sqrt (contract)"]
 BOUNDS = {"quick": dict(taxa="<=2 (3 for molecular)", markers="<=2", ploidy="1 and 2"), "thorough": dict(taxa="<=3", markers="<=3", ploidy="1 and 2")}
-OUTSIDE = ["Yang estimator with more than one marker or more than two taxa (the square-root scaling makes the two-marker identity time out in z3; one marker per obligation is decided)", "is_positive_semidefinite / apply_jitter (LAPACK eigenvalues with tolerances)", "int8 overflow for >127 markers (sizes beyond the bound)", "rounding"]
+OUTSIDE = ["Yang estimator with more than one marker or more than two taxa (the square-root scaling makes the two-marker identity time out in z3; one marker per obligation is decided)", "is_positive_semidefinite / apply_jitter (LAPACK eigenvalues with tolerances)", "wrap-around of narrow integer accumulators is decided structurally (no int8/int16 matmul over markers), not by running >127 markers symbolically", "rounding"]
 
 CM = "pybrops.popgen.cmat."
 MODS = [CM + "DenseCoancestryMatrix", CM + "DenseMolecularCoancestryMatrix", CM + "DenseVanRadenCoancestryMatrix", CM + "DenseYangCoancestryMatrix",
